@@ -123,6 +123,14 @@ def symmetric_roles(ctx, rule, d, r):
             idxs = sym[sym.index("[") + 1:-1]
             firsts = {t for t in toks if t.endswith("#0")}
             rests = {t for t in toks if t.endswith("#r")}
+            if idxs.startswith("idx@"):
+                # index loop: arrays[i] paired with weights[i] for i from the same start
+                start = idxs[4:]
+                if rests and not firsts and start != "1":
+                    bad.append((node.lineno, "inputs after the first are weighted by weights starting at index %s" % start))
+                if firsts and rests and start != "0":
+                    bad.append((node.lineno, "all inputs are weighted by weights starting at index %s" % start))
+                continue
             if firsts and not rests and idxs != "0":
                 bad.append((node.lineno, "the first input is weighted by %s, not by the first weight" % sym))
             if rests and not firsts:
